@@ -6,3 +6,379 @@ from pyvc.bounded import bounded_check
 carrier = Contract(name="C15-bounded", qual=None, kind="function", props=["C15"], modes={}, replay="oracles.bounded_adapter:c15",
                    stated=["all operation sequences up to a bounded length over small key and value universes (exhaustively)"])
 carrier.extra_checks = [bounded_check("bounded.c15", "multikeydict-histories", ["C15"])]
+
+
+# ---------------------------------------------------------------------------
+# Deductive part: representation invariant of MultiKeyDict and the deletion / lookup operations.
+#   KD = self._keys_dict : key -> key tuple        ID = self._inv_dict : value -> key tuple
+#   SD = the dict storage (super): key tuple -> value
+# Key tuples are values of an uninterpreted sort T with TLEN(t), TAT(t, i) (item i) and TIDX(t, k) (the index of k in t:
+# k is in t  iff  0 <= TIDX(t,k) < TLEN(t) and TAT(t, TIDX(t,k)) == k).
+import ast
+import z3
+from pyvc.contract import Loop, Yield, Comp
+from pyvc.sym import Ref, PyRaise, Unsupported, INT, BOOL, UFn, SuperProxy
+from pyvc import sym, library as lib
+
+K = z3.DeclareSort("Key")
+V = z3.DeclareSort("Val")
+T = z3.DeclareSort("KeyTuple")
+TLEN = z3.Function("TLEN", T, INT)
+TAT = z3.Function("TAT", T, INT, K)
+TIDX = z3.Function("TIDX", T, K, INT)
+
+
+def IN(k, t):
+    return z3.And(TIDX(t, k) >= 0, TIDX(t, k) < TLEN(t), TAT(t, TIDX(t, k)) == k)
+
+
+class ZDict:
+    """a dict with symbolic keys: dom (key -> Bool) and val (key -> value) arrays in the heap"""
+    def __init__(self, ksort, vsort, name):
+        self.ksort, self.vsort, self.name = ksort, vsort, name
+
+    def truth(self, m, r):
+        raise Unsupported("truth of a symbolic dict")
+
+    def havoc(self, m, r, body=None):
+        m.heap[(r.id, "dom")] = m.fresh("hv_dom_" + self.name, z3.ArraySort(self.ksort, BOOL))
+        m.heap[(r.id, "val")] = m.fresh("hv_val_" + self.name, z3.ArraySort(self.ksort, self.vsort))
+
+    def index(self, m, r, key):
+        if m.spec_mode:
+            return m.heap[(r.id, "val")][key]
+        if m.branch(z3.Not(m.heap[(r.id, "dom")][key])):
+            raise PyRaise("KeyError")
+        return m.heap[(r.id, "val")][key]
+
+    def setitem(self, m, r, key, v):
+        m.heap[(r.id, "dom")] = z3.Store(m.heap[(r.id, "dom")], key, z3.BoolVal(True))
+        m.heap[(r.id, "val")] = z3.Store(m.heap[(r.id, "val")], key, v)
+
+    def delitem(self, m, r, key):
+        if m.branch(z3.Not(m.heap[(r.id, "dom")][key])):
+            raise PyRaise("KeyError")
+        m.heap[(r.id, "dom")] = z3.Store(m.heap[(r.id, "dom")], key, z3.BoolVal(False))
+
+    def contains(self, m, r, key):
+        return m.heap[(r.id, "dom")][key]
+
+    def iter(self, m, r):
+        raise Unsupported("iteration over a symbolic dict")
+
+    def method(self, m, r, attr, args, kwargs):
+        if attr == "get":
+            key, default = args[0], (args[1] if len(args) > 1 else None)
+            if m.branch(m.heap[(r.id, "dom")][key]):
+                return m.heap[(r.id, "val")][key]
+            return default
+        raise Unsupported("dict.%s" % attr)
+
+
+def _zdict(m, ksort, vsort, name):
+    r = Ref("ext", m.new_id("zdict_" + name), None)
+    m.heap[(r.id, "impl")] = ZDict(ksort, vsort, name)
+    m.heap[(r.id, "dom")] = z3.Const("dom_" + name, z3.ArraySort(ksort, BOOL))
+    m.heap[(r.id, "val")] = z3.Const("val_" + name, z3.ArraySort(ksort, vsort))
+    return r
+
+
+def mkd_obj(m, name):
+    kd, idd, sd = _zdict(m, K, T, "KD"), _zdict(m, V, T, "ID"), _zdict(m, T, V, "SD")
+    return m.new_obj("MultiKeyDict", {"_keys_dict": kd, "_inv_dict": idd, "__storage__": sd})
+
+
+def _dv(m, o, f):
+    r = m.heap[(o.id, f)]
+    return m.heap[(r.id, "dom")], m.heap[(r.id, "val")]
+
+
+def WF(m, o):
+    """representation invariant (DESIGN.md A.6)"""
+    KDd, KDv = _dv(m, o, "_keys_dict")
+    IDd, IDv = _dv(m, o, "_inv_dict")
+    SDd, SDv = _dv(m, o, "__storage__")
+    k, t, v, i = z3.Const("k!wf", K), z3.Const("t!wf", T), z3.Const("v!wf", V), z3.Int("i!wf")
+    return z3.And(
+        z3.ForAll([k], z3.Implies(KDd[k], z3.And(SDd[KDv[k]], IN(k, KDv[k])))),
+        z3.ForAll([t], z3.Implies(SDd[t], z3.And(TLEN(t) >= 1, IDd[SDv[t]], IDv[SDv[t]] == t))),
+        z3.ForAll([t, i], z3.Implies(z3.And(SDd[t], i >= 0, i < TLEN(t)), z3.And(KDd[TAT(t, i)], KDv[TAT(t, i)] == t, TIDX(t, TAT(t, i)) == i))),
+        z3.ForAll([v], z3.Implies(IDd[v], z3.And(SDd[IDv[v]], SDv[IDv[v]] == v))),
+    )
+
+
+def _spec(f):
+    f._pyvc_spec = True
+    return f
+
+
+@_spec
+def wf(m, node):
+    return WF(m, m.eval(node.args[0]))
+
+
+@_spec
+def HAS(m, node):          # key in the map
+    o, k = m.eval(node.args[0]), m.eval(node.args[1])
+    return _dv(m, o, "_keys_dict")[0][k]
+
+
+@_spec
+def MAP(m, node):          # d[k] of the abstract view: SD[KD[k]]
+    o, k = m.eval(node.args[0]), m.eval(node.args[1])
+    KDv = _dv(m, o, "_keys_dict")[1]
+    return _dv(m, o, "__storage__")[1][KDv[k]]
+
+
+@_spec
+def GROUP(m, node):        # the key tuple owned by value v (ID[v])
+    o, v = m.eval(node.args[0]), m.eval(node.args[1])
+    return _dv(m, o, "_inv_dict")[1][v]
+
+
+@_spec
+def OWNS(m, node):         # v is a value of the dict
+    o, v = m.eval(node.args[0]), m.eval(node.args[1])
+    return _dv(m, o, "_inv_dict")[0][v]
+
+
+@_spec
+def KEYS_OF(m, node):      # key2keys: KD[k]
+    o, k = m.eval(node.args[0]), m.eval(node.args[1])
+    return _dv(m, o, "_keys_dict")[1][k]
+
+
+@_spec
+def MINUS(m, node):
+    """t1 is t0 without key x, order kept: same members except x, one shorter, relative order preserved"""
+    t1, t0, x = m.eval(node.args[0]), m.eval(node.args[1]), m.eval(node.args[2])
+    k, k2 = z3.Const("k!mn", K), z3.Const("k2!mn", K)
+    return z3.And(TLEN(t1) == TLEN(t0) - 1,
+                  z3.ForAll([k], IN(k, t1) == z3.And(IN(k, t0), k != x)),
+                  z3.ForAll([k, k2], z3.Implies(z3.And(IN(k, t1), IN(k2, t1)), (TIDX(t1, k) < TIDX(t1, k2)) == (TIDX(t0, k) < TIDX(t0, k2)))))
+
+
+@_spec
+def OLD(m, node):
+    name = m.eval(node.args[0])
+    return m.ghost[name]
+
+
+def _snapshot(m):
+    """ghost copies of the three maps at entry"""
+    o = m.locals["self"]
+    for f, tag in (("_keys_dict", "KD"), ("_inv_dict", "ID"), ("__storage__", "SD")):
+        d, v = _dv(m, o, f)
+        m.ghost["%sd0" % tag], m.ghost["%sv0" % tag] = d, v
+
+
+def _super_getitem(m, self, args, kwargs):
+    sd = m.heap[(self.id, "__storage__")]
+    return m.heap[(sd.id, "impl")].index(m, sd, args[0])
+
+
+def _super_setitem(m, self, args, kwargs):
+    sd = m.heap[(self.id, "__storage__")]
+    m.heap[(sd.id, "impl")].setitem(m, sd, args[0], args[1])
+
+
+def _super_delitem(m, self, args, kwargs):
+    sd = m.heap[(self.id, "__storage__")]
+    m.heap[(sd.id, "impl")].delitem(m, sd, args[0])
+
+
+def _self_getitem(m, base, idx):
+    """self[key] inside a method = postcondition of __getitem__ (contract below)"""
+    if isinstance(base, Ref) and base.kind == "obj" and base.elem == "MultiKeyDict":
+        kd = m.heap[(base.id, "_keys_dict")]
+        t = m.heap[(kd.id, "impl")].index(m, kd, idx)
+        sd = m.heap[(base.id, "__storage__")]
+        return m.heap[(sd.id, "impl")].index(m, sd, t)
+    return NotImplemented
+
+
+class TupleIter:
+    pass
+
+
+def _tuple_genexpr(m, node):
+    """tuple(k for k in T if k != x): the tuple T without x, order kept (library semantics of a filtering comprehension)"""
+    g = node.generators[0]
+    if len(node.generators) == 1 and isinstance(node.elt, ast.Name) and isinstance(g.target, ast.Name) and node.elt.id == g.target.id and len(g.ifs) == 1:
+        c = g.ifs[0]
+        if isinstance(c, ast.Compare) and len(c.ops) == 1 and isinstance(c.ops[0], ast.NotEq) and isinstance(c.left, ast.Name) and c.left.id == g.target.id:
+            t0 = m.eval(g.iter)
+            x = m.eval(c.comparators[0])
+            if sym.is_z3(t0) and t0.sort() == T:
+                return ("filtered-tuple", t0, x)
+    return NotImplemented
+
+
+def _tuple_builtin(m, args, kwargs):
+    a = args[0]
+    if isinstance(a, tuple) and a and a[0] == "filtered-tuple":
+        _, t0, x = a
+        t1 = m.fresh("tuple_minus", T)
+        k, k2 = z3.Const("k!ft", K), z3.Const("k2!ft", K)
+        i = z3.Int("i!ft")
+        # distinct-element source tuple (class invariant) without x
+        m.assume(z3.And(TLEN(t1) >= 0, TLEN(t1) == TLEN(t0) - z3.If(IN(x, t0), 1, 0)))
+        m.assume(z3.ForAll([k], IN(k, t1) == z3.And(IN(k, t0), k != x)))
+        m.assume(z3.ForAll([i], z3.Implies(z3.And(i >= 0, i < TLEN(t1)), z3.And(IN(TAT(t1, i), t1), TIDX(t1, TAT(t1, i)) == i))))
+        m.assume(z3.ForAll([k, k2], z3.Implies(z3.And(IN(k, t1), IN(k2, t1)), (TIDX(t1, k) < TIDX(t1, k2)) == (TIDX(t0, k) < TIDX(t0, k2)))))
+        return t1
+    raise Unsupported("tuple(%r)" % (a,))
+
+
+_tuple_builtin._pyvc_callee = True
+
+
+def _len_hook(m, args, kwargs):
+    (v,) = args
+    if sym.is_z3(v) and v.sort() == T:
+        return TLEN(v)
+    return sym.BUILTINS["len"](m, args, kwargs)
+
+
+_len_hook._pyvc_callee = True
+
+
+def _iter_tuple(m, v):
+    """for k in <key tuple>: an iterator over TAT(t, 0..TLEN)"""
+    j = z3.Int("j!tup")
+    it = m.new_iter(sym._Prim("Key", K), "tuple", finite=True, arr=z3.Lambda([j], TAT(v, j)), length=TLEN(v))
+    return it
+
+
+def _g(m, name):
+    return m.ghost[name]
+
+
+@_spec
+def OLDHAS(m, node):
+    return _g(m, "KDd0")[m.eval(node.args[0])]
+
+
+@_spec
+def OLDKEYS(m, node):
+    return _g(m, "KDv0")[m.eval(node.args[0])]
+
+
+@_spec
+def OLDMAP(m, node):
+    return _g(m, "SDv0")[_g(m, "KDv0")[m.eval(node.args[0])]]
+
+
+@_spec
+def OLDOWNS(m, node):
+    return _g(m, "IDd0")[m.eval(node.args[0])]
+
+
+@_spec
+def OLDGROUP(m, node):
+    return _g(m, "IDv0")[m.eval(node.args[0])]
+
+
+@_spec
+def KDHAS(m, node):
+    o, k = m.eval(node.args[0]), m.eval(node.args[1])
+    return _dv(m, o, "_keys_dict")[0][k]
+
+
+@_spec
+def TATF(m, node):
+    return TAT(m.eval(node.args[0]), sym.to_z3num(m.eval(node.args[1])))
+
+
+@_spec
+def TIDXF(m, node):
+    return TIDX(m.eval(node.args[0]), m.eval(node.args[1]))
+
+
+@_spec
+def INF(m, node):
+    return IN(m.eval(node.args[0]), m.eval(node.args[1]))
+
+
+@_spec
+def KD_UNCHANGED_EXCEPT_KEY(m, node):
+    """entry k of _keys_dict is as at entry, except that `key` has been removed"""
+    o, k, key = m.eval(node.args[0]), m.eval(node.args[1]), m.eval(node.args[2])
+    d, v = _dv(m, o, "_keys_dict")
+    return z3.And(d[k] == z3.And(_g(m, "KDd0")[k], k != key), z3.Implies(d[k], v[k] == _g(m, "KDv0")[k]))
+
+
+@_spec
+def ID_IS_OLD_MINUS(m, node):
+    o, val = m.eval(node.args[0]), m.eval(node.args[1])
+    d, v = _dv(m, o, "_inv_dict")
+    w = z3.Const("w!id", V)
+    return z3.ForAll([w], z3.And(d[w] == z3.And(_g(m, "IDd0")[w], w != val), z3.Implies(d[w], v[w] == _g(m, "IDv0")[w])))
+
+
+@_spec
+def SD_IS_OLD_MINUS(m, node):
+    o, tt = m.eval(node.args[0]), m.eval(node.args[1])
+    d, v = _dv(m, o, "__storage__")
+    t = z3.Const("t!sd", T)
+    return z3.ForAll([t], z3.And(d[t] == z3.And(_g(m, "SDd0")[t], t != tt), z3.Implies(d[t], v[t] == _g(m, "SDv0")[t])))
+
+
+_ENV = {"OLDHAS": OLDHAS, "OLDKEYS": OLDKEYS, "OLDMAP": OLDMAP, "OLDOWNS": OLDOWNS, "OLDGROUP": OLDGROUP, "KDHAS": KDHAS, "TATF": TATF, "TIDXF": TIDXF, "INF": INF,
+        "KD_UNCHANGED_EXCEPT_KEY": KD_UNCHANGED_EXCEPT_KEY, "ID_IS_OLD_MINUS": ID_IS_OLD_MINUS, "SD_IS_OLD_MINUS": SD_IS_OLD_MINUS, "wf": wf, "HAS": HAS, "MAP": MAP, "GROUP": GROUP, "OWNS": OWNS, "KEYS_OF": KEYS_OF, "MINUS": MINUS, "OLD": OLD, "TLEN": UFn(TLEN, 1)}
+
+
+def _mk(c):
+    c.index_hook = _self_getitem
+    c.genexpr_hook = _tuple_genexpr
+    c.isinstance_hook = lambda m, v, cls: (False if (cls is _tuple_builtin or getattr(cls, "name", None) == "tuple") else lib.std_isinstance(m, v, cls))
+    c.callees = {("super:MultiKeyDict", "__getitem__"): _super_getitem, ("super:MultiKeyDict", "__setitem__"): _super_setitem, ("super:MultiKeyDict", "__delitem__"): _super_delitem}
+    c.globs = {"MultiKeyDict": "MultiKeyDict", "tuple": _tuple_builtin, "len": _len_hook}
+    c.spec_env = _ENV
+    c.sorts = {"Key": K, "Val": V, "Tup": T}
+    c.iter_hook = lambda m, v: (_iter_tuple(m, v) if (sym.is_z3(v) and v.sort() == T) else NotImplemented)
+    c.assumptions = ["key tuples are values of an uninterpreted sort with TLEN / TAT / TIDX; tuple(k for k in t if k != x) is modelled as 't without x, order kept'",
+                     "dict with symbolic keys: domain and value arrays (library model)"]
+    return c
+
+
+_key = lambda m, n: z3.Const("key", K)
+getitem = _mk(Contract(
+    name="MultiKeyDict.__getitem__", qual="audiolazy/lazy_core.py::MultiKeyDict.__getitem__", kind="function", props=["C15"],
+    modes={"single-key": Mode(params=dict(self=mkd_obj, key=_key), requires=["wf(self)"],
+                              ensures=[("S:d[k]-is-the-value-last-assigned-to-k", "result == MAP(self, key)"), ("S:lookups-change-nothing", "wf(self)")],
+                              raises={"KeyError": "not HAS(self, key)"})},
+    replay="oracles.bounded_adapter:c15", stated=["d[k] is the value of k in the abstract map; KeyError iff k is not a key"]))
+
+key2keys = _mk(Contract(
+    name="MultiKeyDict.key2keys", qual="audiolazy/lazy_core.py::MultiKeyDict.key2keys", kind="function", props=["C15"],
+    modes={"any": Mode(params=dict(self=mkd_obj, key=_key), requires=["wf(self)"],
+                       ensures=[("S:the-tuple-that-owns-k", "result == KEYS_OF(self, key) and GROUP(self, MAP(self, key)) == result")],
+                       raises={"KeyError": "not HAS(self, key)"})},
+    replay="oracles.bounded_adapter:c15", stated=["key2keys(k) is the key tuple of the value that k maps to"]))
+
+
+def _delitem_init(m):
+    _snapshot(m)
+
+
+delitem = _mk(Contract(
+    name="MultiKeyDict.__delitem__", qual="audiolazy/lazy_core.py::MultiKeyDict.__delitem__", kind="function", props=["C15"],
+    modes={"any": Mode(params=dict(self=mkd_obj, key=_key), requires=["wf(self)"], raises={"KeyError": "not OLDHAS(key)"})},
+    loops={2: Loop(inv=[
+        ("C:assigned-so-far", "forall(lambda j: implies(0 <= j and j < pos(_it2), KDHAS(self, TATF(new_key, j)) and KEYS_OF(self, TATF(new_key, j)) == new_key))"),
+        ("C:others-unchanged", "forall(lambda k: implies(not INF(k, new_key) or TIDXF(new_key, k) >= pos(_it2), KD_UNCHANGED_EXCEPT_KEY(self, k, key)), Key)"),
+        ("C:frame", "ID_IS_OLD_MINUS(self, value) and SD_IS_OLD_MINUS(self, key_tuple) and length(_it2) == TLEN(new_key)"),
+    ])},
+    ensures=[
+        ("S:the-deleted-key-is-gone-and-every-other-key-keeps-its-value",
+         "forall(lambda k: HAS(self, k) == (OLDHAS(k) and k != key) and implies(OLDHAS(k) and k != key, MAP(self, k) == OLDMAP(k)), Key)"),
+        ("S:the-owning-tuple-loses-exactly-that-key,order-kept",
+         "implies(TLEN(OLDKEYS(key)) > 1, OWNS(self, OLDMAP(key)) and MINUS(GROUP(self, OLDMAP(key)), OLDKEYS(key), key))"),
+        ("S:a-value-left-without-keys-disappears", "implies(TLEN(OLDKEYS(key)) == 1, not OWNS(self, OLDMAP(key)))"),
+        ("S:other-values-keep-their-tuples", "forall(lambda v: implies(v != OLDMAP(key), OWNS(self, v) == OLDOWNS(v) and implies(OLDOWNS(v), GROUP(self, v) == OLDGROUP(v))), Val)"),
+        ("S:the-three-maps-stay-coherent", "wf(self)"),
+    ],
+    replay="oracles.bounded_adapter:c15",
+    stated=["deleting a key removes exactly that key: the value keeps its other keys in order (or disappears with its last key), nothing else changes, the representation invariant is preserved; a missing key raises KeyError"]))
+delitem.ghost_init_hook = _delitem_init
